@@ -250,6 +250,9 @@ def check(repo, tier):
                         c0 = res[-1]._attrs['cores'][0]
                         anc = A.ancestors([c0])
                         kinds = {a_.origin for a_ in anc.values() if a_.ndim == 0 and a_.origin in ('norm', 'amax')}
+                        if not kinds:
+                            # (neither np.linalg.norm nor a maximum of column sums reaches the state: the norm may be computed in a way this rule does not follow)
+                            raise AnalysisError(f'{scen}: no norm computation is recognised in the returned state although normalize={nz}')
                         good = ('amax' in kinds) if nz == 1 else ('norm' in kinds and 'amax' not in kinds)
                         run.oblige('D4', (entry, scen, 'normalised'), good)
                         if not good:
